@@ -23,8 +23,10 @@ Verdict(e) ==
            (IF \A p \in ToSet(e.pairs) : p[1] = p[2] THEN {} ELSE {"Inv_C18_Accounting"})
            \cup (LET over == {p \in ToSet(e.tops) : p.count > e.limit} IN
                  IF over = {} THEN {}
-                 \* the known way this fails: SLOAD wraps its key and the loaded value outside the value builder
-                 ELSE IF \A p \in over : p.ctor \in {"SLoad", "UnwrittenStorageValue"} THEN {"Inv_C18_Limit/sload-wrapper"} ELSE {"Inv_C18_Limit"})
+                 \* the known way this fails: the placeholder recorded in storage for a read of a never-written slot
+                 \* wraps its key outside the value builder, so it can exceed the limit by one node
+                 ELSE IF \A p \in over : p.ctor = "UnwrittenStorageValue" /\ p.count <= e.limit + 1
+                      THEN {"Inv_C18_Limit/unwritten-placeholder"} ELSE {"Inv_C18_Limit"})
            \cup (IF e.culled_regrow THEN {"Inv_C18_Accounting"} ELSE {})
       [] OTHER -> {}
 
